@@ -204,6 +204,11 @@ func C05(c *core.Ctx) {
 		first := runHandshake(r, hc, nil)
 		var prev *hsResult = &first
 		for _, sc := range hsScripts {
+			if sc == "no-key" && len(hc.key) == 0 {
+				// with an empty key the digest over everything the adversary knows IS the honest digest
+				c.Hist("no-key skipped: empty key")
+				continue
+			}
 			hc.script = sc
 			res := runHandshake(r, hc, prev)
 			c.Eval()
@@ -247,8 +252,19 @@ func C05(c *core.Ctx) {
 			}
 			// clause 3: the PING carries a fresh 16-byte salt and the digest of the formula
 			if len(res.written) > 0 {
+				pnonce := hc.nonce
+				if sc == "nil-options-helo" {
+					pnonce = nil
+				}
+				if sc == "garbage-helo" {
+					// the mutation may have changed the nonce the client reads
+					var h protocol.Helo
+					if _, err := h.UnmarshalMsg(res.inp1); err == nil && h.Options != nil {
+						pnonce = h.Options.Nonce
+					}
+				}
 				want := fmt.Sprintf("ping(host=%s,salt=%s,digest=%s,user=,pass=)", hx(hc.chost), hx(res.salt),
-					hx([]byte(sha512hex(res.salt, hc.chost, map[bool][]byte{true: nil, false: hc.nonce}[sc == "nil-options-helo"], hc.key))))
+					hx([]byte(sha512hex(res.salt, hc.chost, pnonce, hc.key))))
 				c.Judge("c05-ping", "judge_shape", []string{"ping", hx(res.written), want}, "bytes written during the handshake must be exactly one PING with the salt drawn and the digest of the formula ("+sc+")")
 			}
 			if sc == "honest" {
